@@ -31,6 +31,13 @@ type mCfg struct {
 	Loads map[string][]string `json:"loads"`
 	Roots []string            `json:"roots"`
 	Bad   []string            `json:"bad"`
+	// how a bad module fails: "" = its body calls fail() after its loads; "missing" = no such
+	// file; "syntax" = the file does not parse; "nofetch" = it lives in an unknown project
+	Kinds   map[string]string `json:"kinds,omitempty"`
+	NoFetch []string          `json:"nofetch"`
+	// Spell[m] = "short": loads of the package module m name it by its package ("//m")
+	// instead of "//m:BUILD.dawn"
+	Spell map[string]string `json:"spell,omitempty"`
 }
 
 type mCase struct {
@@ -66,7 +73,13 @@ func mIsRoot(c *mCfg, m string) bool {
 
 func mLabel(c *mCfg, m string) string {
 	if mIsRoot(c, m) {
+		if c.Spell[m] == "short" {
+			return "//" + m
+		}
 		return "//" + m + ":BUILD.dawn"
+	}
+	if c.Kinds[m] == "nofetch" {
+		return "example.com/none//lib:" + m + ".dawn"
 	}
 	return "//lib:" + m + ".dawn"
 }
@@ -82,6 +95,12 @@ func mWriteTree(dir string, c *mCfg) error {
 	}
 	for m, loads := range c.Loads {
 		var b strings.Builder
+		switch c.Kinds[m] {
+		case "missing", "nofetch":
+			continue
+		case "syntax":
+			b.WriteString("def (:\n")
+		}
 		for _, d := range loads {
 			fmt.Fprintf(&b, "load(%q, \"v_%s\")\n", mLabel(c, d), d)
 		}
@@ -135,6 +154,12 @@ func mNames(c *mCfg) map[string]string {
 			names[l.String()] = m
 		}
 		names[mLabel(c, m)] = m
+		if mIsRoot(c, m) {
+			// every spelling of a package's build file names the same module
+			for _, sp := range []string{"//" + m, "//" + m + ":BUILD.dawn", "module://" + m, "module://" + m + ":BUILD.dawn"} {
+				names[sp] = m
+			}
+		}
 	}
 	return names
 }
